@@ -21,7 +21,7 @@ pub fn meta() -> Meta {
         rule: "for packets parsed from reference encodings (arbitrary compression, all 40 types, opaque/empty RDATA) and packets built from parts: every question, record, \
 name and RDATA value x is cloned and converted with into_owned; clone == x and owned == x where PartialEq exists; then the receive buffer is overwritten and dropped and \
 the owned copies are observed (model) and re-serialised: both must equal the original's model and bytes (this also covers TTL / cache-flush / unicast, which == ignores). \
-Hash: for equal pairs obtained through different routes (parsed vs built, same record with different TTL / cache-flush, Name vs Name, RData vs RData) hashes must be equal under a fixed \
+NSEC values are checked again after their public window list was reversed by the application (clone, into_owned, hash, bytes). Hash: for equal pairs obtained through different routes (parsed vs built, same record with different TTL / cache-flush, Name vs Name, RData vs RData) hashes must be equal under a fixed \
 DefaultHasher; InstanceInformation values built by inserting the same addresses/ports/attributes in different orders into separately created sets must be ==, hash equally and \
 be found by HashSet::contains. non-trivial = packet with >= 1 record or question / instance with >= 2 set members; distinct = hash of the case",
         assumptions: &["DefaultHasher::new() is deterministic (fixed keys)"],
@@ -53,6 +53,7 @@ pub fn check_bytes(ctx: &mut Ctx, family: &str, idx: u64, input: &[u8], built_tw
         };
         let all: Vec<&ResourceRecord> = p.answers.iter().chain(p.name_servers.iter()).chain(p.additional_records.iter()).collect();
         let mut problems: Vec<String> = Vec::new();
+        let mut nsec_variants = 0u64;
         // clone / into_owned equality where PartialEq exists
         for r in &all {
             let c = (*r).clone();
@@ -95,6 +96,22 @@ pub fn check_bytes(ctx: &mut Ctx, family: &str, idx: u64, input: &[u8], built_tw
                 let w = simple_dns::rdata::RData::PTR(flip(&n.0).into());
                 if w == r.rdata && h(&w) != h(&r.rdata) { problems.push("eq-but-hash-differs:rdata-name-case-variant".into()); }
             }
+            // a value the application edited through its public fields: NSEC windows in another order (the parser only
+            // produces increasing windows, a constructed value need not be sorted)
+            if let simple_dns::rdata::RData::NSEC(n) = &r.rdata {
+                if n.type_bit_maps.len() >= 2 {
+                    let mut e = (*r).clone();
+                    if let simple_dns::rdata::RData::NSEC(m) = &mut e.rdata { m.type_bit_maps.reverse(); }
+                    let eo = e.clone().into_owned();
+                    if eo != e { problems.push("record-owned-ne:NSEC:windows-reordered".into()); }
+                    if e.clone() != e { problems.push("record-clone-ne:NSEC:windows-reordered".into()); }
+                    if eo == e && h(&eo) != h(&e) { problems.push("eq-but-hash-differs:NSEC:windows-reordered".into()); }
+                    let pe = packet_of(vec![], vec![e.clone()]);
+                    let po = packet_of(vec![], vec![eo]);
+                    if pe.build_bytes_vec().ok() != po.build_bytes_vec().ok() { problems.push("owned-bytes-differ:NSEC:windows-reordered".into()); }
+                    nsec_variants += 1;
+                }
+            }
             if let simple_dns::rdata::RData::HINFO(x) = &r.rdata {
                 let fl: Vec<u8> = x.cpu.verif_bytes().iter().map(|c| if c.is_ascii_lowercase() { c.to_ascii_uppercase() } else { c.to_ascii_lowercase() }).collect();
                 if let Ok(cs) = simple_dns::CharacterString::new(&fl) {
@@ -116,9 +133,9 @@ pub fn check_bytes(ctx: &mut Ctx, family: &str, idx: u64, input: &[u8], built_tw
         let owned_r: Vec<ResourceRecord<'static>> = all.iter().map(|r| (*r).clone().into_owned()).collect();
         let owned_opt = p.opt().map(|o| o.clone().into_owned());
         let obs_opt = p.opt().map(|o| (o.udp_packet_size, o.version, o.opt_codes.iter().map(|c| (c.code, c.data.to_vec())).collect::<Vec<_>>()));
-        Some((problems, obs_q, obs_r, bytes0, bytes0c, owned_q, owned_r, owned_opt, obs_opt))
+        Some((problems, obs_q, obs_r, bytes0, bytes0c, owned_q, owned_r, owned_opt, obs_opt, nsec_variants))
     });
-    let (problems, obs_q, obs_r, bytes0, bytes0c, owned_q, owned_r, owned_opt, obs_opt) = match r {
+    let (problems, obs_q, obs_r, bytes0, bytes0c, owned_q, owned_r, owned_opt, obs_opt, nsec_variants) = match r {
         Err(pn) => {
             ctx.panic_violation("clone/into_owned/hash", &pn, case());
             return;
@@ -131,6 +148,7 @@ pub fn check_bytes(ctx: &mut Ctx, family: &str, idx: u64, input: &[u8], built_tw
     };
     ctx.case_bytes(!obs_q.is_empty() || !obs_r.is_empty(), input);
     ctx.add("records_checked", obs_r.len() as u64);
+    ctx.add("nsec_values_with_reordered_windows", nsec_variants);
     for pr in problems {
         ctx.violation("owned-equals-original", &pr, format!("clone/into_owned/hash disagreement: {}", pr), case());
     }
